@@ -666,8 +666,10 @@ _add("C06", rule="(neighbour scenario) ARP requests relayed by a bridge (the fra
      probes=["arp_requests_through_a_relay"])
 _add("C10", rule="(netsim:demux) a fifth of the TCP listeners are IPv6 sockets bound to the IPv4-mapped form of the address (::ffff:a.b.c.d, ::ffff:0.0.0.0): "
      "they reserve exactly what the IPv4 socket bound to a.b.c.d would", probes=["tcp_listeners_bound_to_a_mapped_ipv4_address"])
-_add("C12", rule="two goroutines sending to one next hop at the same moment (two first lookups race); ARP requests relayed by a bridge",
-     probes=["two_sends_to_one_next_hop_at_the_same_moment", "arp_requests_through_a_relay"])
+_add("C12", rule="two goroutines sending to one next hop at the same moment (two first lookups race); ARP requests relayed by a bridge; 15% of the runs "
+     "switch spoofing on and send part of their datagrams from a socket bound to an address the interface does not own (resolved like any "
+     "other send; on such an interface 'answers only for its own addresses' is not judged)",
+     probes=["two_sends_to_one_next_hop_at_the_same_moment", "arp_requests_through_a_relay", "sends_from_a_spoofed_source"])
 
 
 PENDING = "check not built yet (work in progress; will be claimed once its simulation exists)"
